@@ -16,8 +16,9 @@ package main
 //   qualified on a scope with prefix p a metric named p<sep>n and one named n, and
 //             sub-scopes named likewise ("the name formed by the root prefix and the
 //             subscope names in order ... followed by the metric name").
-// All inputs are delimiter-free with non-empty keys (stream main): they go through
-// the model as well.
+//   empty     the empty string as a tag key, against its absence: at the parent, on
+//             siblings, deeper, overridden, inherited, on the root;
+// All inputs are delimiter-free (stream main): they go through the model as well.
 
 import "strings"
 
@@ -33,7 +34,7 @@ var twinSets = [][]string{
 }
 
 func derivTwinsCase(r *Rng, i int) dCase {
-	c := dCase{Mode: "deriv", Stream: "main", Shards: []int{1, 1, 2, 16}[r.Intn(4)], Rep: []string{"plain", "cached", "test"}[(i/3)%3]}
+	c := dCase{Mode: "deriv", Stream: "main", Shards: []int{1, 1, 2, 16}[r.Intn(4)], Rep: []string{"plain", "cached", "test"}[(i/4)%3]}
 	c.Prefix = B(r.Pick([]string{"", "p", "svc", "a.b"}))
 	if c.Rep != "test" {
 		c.Sep = B(r.Pick([]string{"", ".", "_", "::"}))
@@ -63,7 +64,7 @@ func derivTwinsCase(r *Rng, i int) dCase {
 		parent = scope(dOp{Op: "tag", H: 0, Tags: []kv{{B("zone"), B("z1")}}})
 	}
 	kind := r.Range(1, 4)
-	switch i % 3 {
+	switch i % 4 {
 	case 0: // invalid bytes
 		set := twinSets[r.Intn(len(twinSets))]
 		pos := r.Intn(5)
@@ -115,6 +116,44 @@ func derivTwinsCase(r *Rng, i int) dCase {
 			if r.Bool() {
 				met(scope(dOp{Op: "tag", H: parent, Tags: []kv{{B(key), B(sv + suf)}}}), kind, "m")
 			}
+		}
+	case 3: // the empty string as a tag key: a legal key, distinct from its absence
+		// ("all strings for names, keys and values"; the key writer of the repaired tree - F05a -
+		// writes it like any other key, which is what the model describes)
+		if r.Chance(30) {
+			c.San = 1 // "" is unchanged by every sanitizer
+			if c.Rep == "test" {
+				c.Rep = "plain"
+			}
+		}
+		v := r.Pick([]string{"anon", "", "x", "v=1"})
+		other := []kv{{B("region"), B("eu")}}
+		switch r.Intn(6) {
+		case 0: // the parent against the parent plus the "" tag
+			met(parent, kind, "m")
+			met(scope(dOp{Op: "tag", H: parent, Tags: []kv{{B(""), B(v)}}}), kind, "m")
+		case 1: // siblings that differ in the "" tag only
+			met(scope(dOp{Op: "tag", H: parent, Tags: other}), kind, "m")
+			met(scope(dOp{Op: "tag", H: parent, Tags: append([]kv{{B(""), B(v)}}, other...)}), kind, "m")
+		case 2: // deeper, and overridden
+			h := scope(dOp{Op: "tag", H: parent, Tags: other})
+			h2 := scope(dOp{Op: "tag", H: h, Tags: []kv{{B(""), B(v)}}})
+			met(h2, kind, "m")
+			met(scope(dOp{Op: "tag", H: h2, Tags: []kv{{B(""), B(v + "2")}}}), kind, "m")
+			met(h, kind, "m")
+		case 3: // inherited through a sub-scope
+			h := scope(dOp{Op: "tag", H: parent, Tags: []kv{{B(""), B(v)}}})
+			met(scope(dOp{Op: "sub", H: h, Name: "x"}), kind, "m")
+			met(scope(dOp{Op: "sub", H: parent, Name: "x"}), kind, "m")
+		case 4: // the root carries it
+			c.RootTags = append(c.RootTags, kv{B(""), B(v)})
+			met(parent, kind, "m")
+			met(scope(dOp{Op: "tag", H: parent, Tags: other}), kind, "m")
+			met(scope(dOp{Op: "tag", H: parent, Tags: []kv{{B(""), B(v + "r")}}}), kind, "m")
+		default: // next to the keys that sort first
+			met(scope(dOp{Op: "tag", H: parent, Tags: []kv{{B(""), B(v)}, {B("\x00"), B("z")}, {B("a"), B("")}}}), kind, "m")
+			met(scope(dOp{Op: "tag", H: parent, Tags: []kv{{B("\x00"), B("z")}, {B("a"), B("")}}}), kind, "m")
+			met(scope(dOp{Op: "tag", H: parent, Tags: []kv{{B(""), B("")}, {B("a"), B("")}}}), kind, "m")
 		}
 	default: // p<sep>n against n
 		sep := string(c.Sep)
